@@ -271,6 +271,20 @@ def run(ctx):
         ctx.case(("large", "mixed"), {"source": ss, "target": ts, "tb": 0.01, "fb": 100.0})
         judge(ctx, ss, ts, 0.01, 100.0)
     run_long_lists(ctx)
+    # a star: one long event (a background interval, a whole-recording box) overlapping more than a thousand short ones
+    if ctx.shard == 0:
+        for long_first in (True, False):
+            n_short = 1200
+            long_ = {"type": "TimeInterval", "coordinates": [0.0, 3000.0]} if long_first else {"type": "BoundingBox", "coordinates": [0.0, 500.0, 3000.0, 9000.0]}
+            shorts = [{"type": "BoundingBox", "coordinates": [2.0 * i + 0.25, 1000.0, 2.0 * i + 1.0, 3000.0]} for i in range(n_short)]
+            ss, ts = ([long_], shorts) if long_first else (shorts, [long_])
+            ctx.case(("star", "1_x_1200" if long_first else "1200_x_1"), {"source": ss[:2], "target": ts[:2], "tb": 0.01, "fb": 100.0, "n": len(ss), "m": len(ts)})
+            from soundevent.evaluation import match as M_
+
+            try:
+                list(M_.match_geometries([geoms.build(s_, how="dict") for s_ in ss], [geoms.build(t_, how="dict") for t_ in ts]))
+            except Exception as e:
+                ctx.violate_exc("raises", f"raises:{type(e).__name__}", e, spec={"kind": "match", "shape": "star", "n": len(ss), "m": len(ts)})
     # near ties: two (or three) near-duplicate detections against near-duplicate annotations; the candidate pairings'
     # totals differ by 1e-9 .. 1e-7 -- far above double rounding (1e-16), far below single precision
     for _ in range(ctx.scale(150, 600)):
